@@ -182,6 +182,25 @@ def flatten(d, prefix=''):
     return out
 
 
+def group_depths(d, _depth=0, _prefix=''):
+    """nested description dict -> {flat id: number of enclosing groups} (0 for a top-level key)"""
+    out = {}
+    for k, v in d.items():
+        if isinstance(v, dict):
+            out.update(group_depths(v, _depth + 1, _prefix + k + '.'))
+        elif isinstance(v, str):
+            out[_prefix + k] = _depth
+    return out
+
+
+def deep_ids(pairs, form):
+    """ids of `pairs` that the dict form `form` ('flat' | 'nested') places inside a group that is itself inside
+    a group (two or more levels of nesting)"""
+    if form != 'nested':
+        return set()
+    return {sid for sid, dep in group_depths(nest([(p[0], p[1]) for p in pairs])).items() if dep >= 2}
+
+
 def nest(pairs):
     """[(dotted id, descr)] -> nested dicts ({'T': {'X': ...}}); an id that is also a prefix of
     another id of the same dict cannot be nested and stays a flat dotted key"""
